@@ -55,8 +55,10 @@
    |    |                                                          | by e01f313: no _refuted/_partial pair left)          |
    | 8e | "activities"                                             | C11_activity_driver, C11_activity_retried,           |
    |    |                                                          | C11_multi_activity_driver, C11_lifecycles_plan_ok    |
-   | 9  | "for change handlers also across operator restarts"      | C11_across_restarts (restarts at ANY positions),     |
-   |    |                                                          | C11_restarts_invisible, C11_storage_roundtrip        |
+   | 9  | "for change handlers also across operator restarts"      | C11_across_restarts (restarts AND changes of the     |
+   |    | (incl. the cause changing while the handler sleeps:      | cause at ANY positions), C11_restarts_invisible,     |
+   |    | resume->update after a restart, update->delete)          | C11_repurpose_preserves, C11_repurposings_invisible, |
+   |    |                                                          | C11_storage_roundtrip                                |
    +----+----------------------------------------------------------+------------------------------------------------------+
    Monitored only (no theorem): the verdict of run_activity (ActivityError iff a handler failed; D:activity compares
    it with the model's final state), "no entry after the stopper is set" (C09's clause), busy loops (not-finished).
@@ -231,6 +233,25 @@ Print Assumptions C11_across_restarts.
 Theorem C11_restarts_invisible : forall e c tr ps, prun e c ps tr = prun e c ps (no_restarts tr).
 Proof. exact restarts_invisible. Qed.
 Print Assumptions C11_restarts_invisible.
+
+(* a change of the cause while the handler sleeps off its delay (resume -> update after a restart, update -> delete
+   for an id shared by both): HandlerState.with_purpose keeps delayed / retries / started / stopped / success /
+   failure / active, hence awakened and sleeping at every instant — everything but the purpose *)
+Theorem C11_repurpose_preserves : forall s,
+  s_delayed (with_purpose s) = s_delayed s /\ s_retries (with_purpose s) = s_retries s /\
+  s_started (with_purpose s) = s_started s /\ s_stopped (with_purpose s) = s_stopped s /\
+  s_success (with_purpose s) = s_success s /\ s_failure (with_purpose s) = s_failure s /\
+  s_active (with_purpose s) = s_active s /\
+  (forall t, awakened t (with_purpose s) = awakened t s) /\ (forall t, sleeping t (with_purpose s) = sleeping t s).
+Proof. exact repurpose_keeps. Qed.
+Print Assumptions C11_repurpose_preserves.
+
+(* ... so for every history of cycles, restarts and re-purposings (at ANY positions) the re-purposings are
+   invisible: same entries, same stored record, same closing (and C11_across_restarts covers such histories) *)
+Theorem C11_repurposings_invisible : forall e c tr t0,
+  prun e c (pinit t0) tr = prun e c (pinit t0) (no_repurposings tr).
+Proof. exact repurposings_invisible. Qed.
+Print Assumptions C11_repurposings_invisible.
 
 (* what is read back from a stored record continues the count, the started time and the delay *)
 Theorem C11_storage_roundtrip : forall now s, s_active s = true -> state_for now (Some (for_storage s)) = s.
